@@ -299,6 +299,8 @@ type out =
 
 type dstate = { remote : table; local : table }
 
+val hello_of : service -> service
+
 val with_iid : z -> service -> service
 
 val probe_matches : table -> z -> service list -> table * out list
